@@ -1,4 +1,6 @@
-(* Model side of C39 (relay part).  case: "<ops> ## <s0> <snapshot flag per trickle/mpreq>" *)
+(* Model side of C39 (relay part, with the PeerManager-level private-broadcast paths).
+   case: "<ops> ## <s0> <now0> <hint per trickle/mpreq: snapshot flag> <hint per pconn: the transaction INVed>"
+   ops: peer k | tx i | rm i | block | trickle p | mpreq p | getdata p i | ptx i | recv p i | pconn | pget c i *)
 open Conv
 let split_hints (l : string) : string * string list =
   let re = Str.regexp_string " ##" in
@@ -6,38 +8,41 @@ let split_hints (l : string) : string * string list =
   | Some i -> (String.sub l 0 i, words (String.sub l (i + 3) (String.length l - i - 3)))
   | None -> (l, [])
 let sz = string_of_z
-(* returns the outputs and, for each getdata, the specification's verdict *)
+let max_tx = Model.pRIVBCAST_MAX_TRANSACTIONS and max_send = Model.pRIVBCAST_MAX_SEND_ATTEMPTS
+(* returns the outputs and, for each getdata/pget, (answer kind, the specification's verdict) *)
 let run (line : string) : string list * bool list =
   let (script, hints) = split_hints line in
   let hints = ref hints in
   let hint () = match !hints with h :: r -> hints := r; h | [] -> "0" in
   let s0 = z_of_string (match !hints with _ :: _ -> hint () | [] -> "1") in
+  let now = ref (match !hints with _ :: _ -> int_of_string (hint ()) | [] -> 0) in
   let s = ref (Model.rinit_at s0) in
+  let pb = ref [] in
   let ws = ref (words script) in
   let next () = match !ws with w :: r -> ws := r; w | [] -> failwith "short" in
-  let npeers = ref 0 in
+  let nconn = ref 0 in
   let confirmed = ref [] in
   let out = ref [] and verdicts = ref [] in
   let emit x = out := x :: !out in
+  let in_pool i = Model.find_entry (z_of_int i) !s.Model.r_pool <> None in
+  let admit i =
+    s := Model.rstep !s (Model.EAdd (z_of_int i, false));
+    (match Model.find_entry (z_of_int i) !s.Model.r_pool with
+     | Some e -> "ok:" ^ sz e.Model.m_seq ^ ":" ^ sz !s.Model.r_seq
+     | None -> "rej") in
   while !ws <> [] do
     (match next () with
-     | "peer" -> let _ = next () in let id = !npeers in incr npeers; s := Model.rstep !s (Model.EPeer (z_of_int id)); emit (string_of_int id)
-     | "tx" ->
-       let i = int_of_string (next ()) in
-       if List.mem i !confirmed then emit "rej"
-       else begin
-         s := Model.rstep !s (Model.EAdd (z_of_int i, false));
-         (match Model.find_entry (z_of_int i) !s.Model.r_pool with
-          | Some e -> emit ("ok:" ^ sz e.Model.m_seq ^ ":" ^ sz !s.Model.r_seq)
-          | None -> emit "rej")
-       end
+     | "peer" -> let _ = next () in let id = !nconn in incr nconn; s := Model.rstep !s (Model.EPeer (z_of_int id)); emit (string_of_int id)
+     | "tx" -> let i = int_of_string (next ()) in if List.mem i !confirmed then emit "rej" else emit (admit i)
      | "rm" -> let i = int_of_string (next ()) in s := Model.rstep !s (Model.ERemove (z_of_int i)); emit (sz !s.Model.r_seq)
      | "block" ->
        let txs = List.map (fun e -> e.Model.m_tx) !s.Model.r_pool in
        confirmed := List.map int_of_z txs @ !confirmed;
+       now := !now + 1;
        s := Model.rstep !s (Model.EBlock txs); emit (sz !s.Model.r_seq)
      | "trickle" | "mpreq" ->
        let p = z_of_string (next ()) in
+       now := !now + 100;
        if hint () = "1" then s := Model.rstep !s (Model.ESnapshot p);
        (match Model.find_peer p !s.Model.r_peers with
         | Some x -> emit ("L" ^ sz x.Model.pr_last_inv ^ "@")
@@ -47,18 +52,51 @@ let run (line : string) : string list * bool list =
        let v = Model.serve_getdata !s p i in
        verdicts := v :: !verdicts;
        emit (if v then "tx" else "notfound")
+     | "ptx" ->
+       (* BroadcastTransaction(NO_MEMPOOL_PRIVATE_BROADCAST): nothing happens to the mempool; the transaction is queued *)
+       let i = int_of_string (next ()) in
+       if List.mem i !confirmed then emit "p?"
+       else begin
+         s := Model.rstep !s (Model.EPrivate (z_of_int i));
+         let (pb', r) = Model.pb_add max_tx max_send !pb (z_of_int i) (z_of_int !now) in
+         pb := pb';
+         let queued = List.exists (fun e -> int_of_z e.Model.t_tx = i) !pb in
+         emit ("p" ^ (if int_of_z r = 2 then "F" else "0") ^ ":" ^ (if in_pool i then "1" else "0") ^ ":" ^ (if queued then "1" else "0"))
+       end
+     | "recv" ->
+       (* the transaction comes back from the network: it leaves the private queue and is validated like any other *)
+       let _p = next () in let i = int_of_string (next ()) in
+       let (pb', _) = Model.pb_remove !pb (z_of_int i) in
+       pb := pb';
+       if List.mem i !confirmed then emit "rej:q0" else emit (admit i ^ ":q0")
+     | "pconn" ->
+       let id = !nconn in incr nconn;
+       let choice = int_of_string (hint ()) in
+       let (pb', r) = Model.pb_pick max_send !pb (z_of_int id) (z_of_int id) (z_of_int !now) (z_of_int choice) in
+       pb := pb';
+       emit (string_of_int id ^ "=" ^ (match r with Some tx -> "1inv:" ^ sz tx | None -> "disc"))
+     | "pget" ->
+       let cid = z_of_string (next ()) in let i = z_of_string (next ()) in
+       let v = (match Model.pb_tx_for_node !pb cid with Some tx -> tx = i | None -> false) in
+       verdicts := v :: !verdicts;
+       emit (if v then "tx" else "disc")
      | o -> failwith ("bad op " ^ o))
   done;
   (List.rev !out, List.rev !verdicts)
 let model _ line = String.concat " " (fst (run line))
-(* the property on what the implementation did: a transaction is handed out only when the rule allows it *)
+(* the property on what the implementation did: a transaction is handed out only when the rules allow it, a private submission
+   leaves the mempool alone *)
 let holds _ case impl =
   if String.length impl >= 5 && (String.sub impl 0 5 = "CRASH" || String.sub impl 0 3 = "EXC") then "fail the implementation aborted: " ^ impl
   else
-    let (_, verdicts) = run case in
-    let answers = List.filter (fun t -> t = "tx" || t = "notfound" || t = "none" || t = "disc") (words impl) in
+    let (mo, verdicts) = run case in
+    let io = words impl in
+    let answers = List.filter (fun t -> t = "tx" || t = "notfound" || t = "none" || t = "disc") io in
     if List.length answers <> List.length verdicts then "na"
     else if List.exists2 (fun a v -> a = "tx" && not v) answers verdicts then
-      "fail a peer obtained a transaction that entered the mempool after the node last sent it announcements (and is not in the most recent block)"
+      "fail a peer obtained a transaction the rules do not allow it to have (admitted after its last announcement snapshot, or not the one INVed on its private-broadcast connection)"
+    else if List.length io = List.length mo &&
+            List.exists2 (fun a m -> String.length a > 1 && a.[0] = 'p' && String.length m > 1 && m.[0] = 'p' && a <> m) io mo then
+      "fail a private submission touched the mempool or was not queued"
     else "ok"
 let () = main_loop ~model ~holds
